@@ -312,24 +312,24 @@ package raft
 //@ func (*Raft).setLatest
 //@   requires r.storage != nil && r.resolver != nil
 //@   modifies r.storage.configs.Latest, contents(r.resolver.addrs)
-//@   ensures [C08.set-latest] r.configs.Latest == config
+//@   ensures [C08+C19.set-latest] r.configs.Latest == config
 
 //@ func (*Raft).changeConfig
 //@   requires RaftWF(r) && r.resolver != nil
 //@   modifies r.leader, r.storage.configs.Committed, r.storage.configs.Latest, contents(r.resolver.addrs)
-//@   ensures [C08.adopt] r.configs.Latest == config && r.configs.Committed == old(r.configs.Latest)
+//@   ensures [C08+C19.adopt] r.configs.Latest == config && r.configs.Committed == old(r.configs.Latest)
 //@   ensures [C08.adopt-leader] r.leader == old(r.leader) || (r.leader == 0 && !IsVoter(config, old(r.leader)))
 
 //@ func (*Raft).commitConfig
 //@   requires RaftWF(r)
 //@   modifies r.leader, r.storage.configs.Committed
-//@   ensures [C08.commit] r.configs.Committed == r.configs.Latest && r.configs.Latest == old(r.configs.Latest)
+//@   ensures [C08+C19.commit] r.configs.Committed == r.configs.Latest && r.configs.Latest == old(r.configs.Latest)
 //@   ensures r.leader == old(r.leader) || r.leader == 0
 
 //@ func (*Raft).revertConfig
 //@   requires RaftWF(r) && r.resolver != nil
 //@   modifies r.storage.configs.Latest, contents(r.resolver.addrs)
-//@   ensures [C08.revert] r.configs.Latest == old(r.configs.Committed) && r.configs.Committed == old(r.configs.Committed)
+//@   ensures [C08+C19.revert] r.configs.Latest == old(r.configs.Committed) && r.configs.Committed == old(r.configs.Committed)
 
 //@ func (*Raft).setCommitIndex
 //@   requires RaftWF(r)
